@@ -465,6 +465,27 @@ fn check_completed_step(
         ));
     }
     let applied = t.applied.last().unwrap();
+    check_applied_step(sh, r, &t, &t.data, applied, conn, w, Some(state_after), prev_timing).map(|(timing, _)| timing)
+}
+
+/// Judges one completed step: `applied` is the update the target was handed,
+/// `data` the target's data right after it. `state_after` is `None` when the
+/// client could not be asked (steps completed inside `Client::run()`).
+/// Returns the timing handed to the target and the state named in the End of
+/// Data.
+#[allow(clippy::too_many_arguments)]
+fn check_applied_step(
+    sh: &Shared,
+    r: &RouterCfg,
+    t: &crate::source::TargetInner,
+    data: &DataSet,
+    applied: &crate::source::AppliedUpdate,
+    conn: &Conn,
+    w: &StepWindow,
+    state_after: Option<Option<StateKey>>,
+    prev_timing: (u32, u32, u32),
+) -> Result<((u32, u32, u32), StateKey), Violation> {
+    let who = format!("router {}", r.id);
     // locate the response on the wire (bytes the client has consumed)
     let stream = conn.s2c.lock().unwrap().written.clone();
     if w.read_end > stream.len() || w.read_begin > w.read_end {
@@ -512,12 +533,14 @@ fn check_completed_step(
         ));
     }
     // 1. stored state equals the state named in the End of Data
-    if state_after != Some(eod_state) {
-        return Err(Violation::new(
-            "state-mismatch",
-            "",
-            format!("{}: End of Data names {:04x}/#{} but client.state() is {:?}", who, eod_state.0, eod_state.1, state_after),
-        ));
+    if let Some(state_after) = state_after {
+        if state_after != Some(eod_state) {
+            return Err(Violation::new(
+                "state-mismatch",
+                "",
+                format!("{}: End of Data names {:04x}/#{} but client.state() is {:?}", who, eod_state.0, eod_state.1, state_after),
+            ));
+        }
     }
     let set = match sh.source.set_at(eod_state) {
         Some(s) => s,
@@ -532,17 +555,17 @@ fn check_completed_step(
     // 2. data handed to the target == the source's set for that state,
     //    restricted to what the negotiated version carries
     let want: DataSet = restrict(&set, eod_v);
-    if t.data != want {
+    if *data != want {
         let abbr = |(k, v): (&crate::source::Key, &Vec<u32>)| if v.len() > 8 { format!("({:?}, {:?}.. {} providers)", k, &v[..6], v.len()) } else { format!("({:?}, {:?})", k, v) };
-        let missing: Vec<String> = want.iter().filter(|(k, v)| t.data.get(*k) != Some(*v)).take(4).map(abbr).collect();
-        let extra: Vec<String> = t.data.iter().filter(|(k, v)| want.get(*k) != Some(*v)).take(4).map(abbr).collect();
+        let missing: Vec<String> = want.iter().filter(|(k, v)| data.get(*k) != Some(*v)).take(4).map(abbr).collect();
+        let extra: Vec<String> = data.iter().filter(|(k, v)| want.get(*k) != Some(*v)).take(4).map(abbr).collect();
         return Err(Violation::new(
             "data-mismatch",
             if applied.reset { "after-reset" } else { "after-diff" },
             format!(
                 "{}: after a completed {} step to {:04x}/#{} (v{}) the client holds {} items, the source's set has {}; missing/changed: {:?}; unexpected: {:?}",
                 who, if applied.reset { "reset" } else { "serial" }, eod_state.0, eod_state.1, eod_v,
-                t.data.len(), want.len(), missing, extra
+                data.len(), want.len(), missing, extra
             ),
         ));
     }
@@ -562,7 +585,7 @@ fn check_completed_step(
     if let Some(what) = &t.lib_vec_mismatch {
         return Err(Violation::new("vec-update", "", format!("{}: {}", who, what)));
     }
-    if t.shadow_as_dataset() != t.data {
+    if state_after.is_some() && t.shadow_as_dataset() != *data {
         sh.bump("probe_hashset_target_differs_from_value_model");
     }
     // 3. exactness of diffs: probes only
@@ -607,7 +630,7 @@ fn check_completed_step(
     if !applied.reset && !applied.items.is_empty() {
         sh.bump("probe_nonempty_diff_applied");
     }
-    if let (Some(b), Some(a)) = (w.state_before, state_after) {
+    if let (Some(b), a) = (w.state_before, eod_state) {
         if b.0 == a.0 && a.1 < b.1 {
             sh.bump("probe_serial_wrapped");
         }
@@ -618,7 +641,7 @@ fn check_completed_step(
     if pdus[..resp_start].iter().any(|(_, p)| matches!(p, WirePdu::SerialNotify { .. })) {
         sh.bump("probe_serial_notify_consumed");
     }
-    Ok(applied.timing)
+    Ok((applied.timing, eod_state))
 }
 
 async fn router(sh: Arc<Shared>, r: RouterCfg) {
@@ -685,6 +708,156 @@ async fn router(sh: Arc<Shared>, r: RouterCfg) {
                 calls_before: sh.source.inner.lock().unwrap().calls.len(),
                 state_before: client.state().map(state_key),
             };
+            // One time in six the router hands control to `Client::run()`, the
+            // library's own loop around `step()`, until a few updates have been
+            // applied, a simulated deadline passes (the future is dropped, which
+            // the documentation names as the way to stop it) or it returns by
+            // itself. The steps completed inside are judged one by one from
+            // marks the target takes at every `apply`.
+            if ctx.chance(1, 6) {
+                sh.bump("probe_client_run_used");
+                let goal = 1 + ctx.choose(3) as usize;
+                let dur = [120u64, 7200, 3 * 86400, 40 * 86400][ctx.choose(4) as usize];
+                let wake = Arc::new(tokio::sync::Notify::new());
+                {
+                    let mut t = target.0.lock().unwrap();
+                    let (c, s, wk) = (conn.clone(), sh.clone(), wake.clone());
+                    t.marks.clear();
+                    t.mark_fn = Some(Box::new(move || {
+                        wk.notify_one();
+                        let n_read = c.s2c.lock().unwrap().n_read as usize;
+                        let calls = s.source.inner.lock().unwrap().calls.len();
+                        (n_read, calls)
+                    }));
+                }
+                // Some(res): run() returned; None + idle: stopped after `goal`
+                // applies; None + !idle: stopped at the deadline
+                let (outcome, idle) = {
+                    let target2 = target.clone();
+                    let ab = w.applied_before;
+                    let stop = async move {
+                        loop {
+                            wake.notified().await;
+                            if target2.0.lock().unwrap().applied.len() >= ab + goal {
+                                break;
+                            }
+                        }
+                    };
+                    let bounded = tokio::time::timeout(Duration::from_secs(dur), stop);
+                    match futures_util::future::select(Box::pin(client.run()), Box::pin(bounded)).await {
+                        futures_util::future::Either::Left((res, _)) => (Some(res), false),
+                        futures_util::future::Either::Right((stopped, _)) => (None, stopped.is_ok()),
+                    }
+                };
+                let state_after = client.state().map(state_key);
+                let marks = {
+                    let mut t = target.0.lock().unwrap();
+                    t.mark_fn = None;
+                    std::mem::take(&mut t.marks)
+                };
+                ctx.ev(36, marks.len() as u64, || {
+                    format!(
+                        "router {} Client::run() {} at t={}ms after {} applied updates (state {:?})",
+                        r.id,
+                        match &outcome {
+                            Some(Ok(())) => "returned Ok".to_string(),
+                            Some(Err(e)) => format!("returned {:?} {}", e.kind(), e),
+                            None if idle => "stopped by its caller while idle".to_string(),
+                            None => "stopped by its caller at a deadline".to_string(),
+                        },
+                        sh.now_ms(), marks.len(), state_after
+                    )
+                });
+                let mut prev_end = w.read_begin;
+                let mut prev_calls = w.calls_before;
+                let mut prev_state = w.state_before;
+                let mut verdict = None;
+                {
+                    let t = target.0.lock().unwrap();
+                    if t.applied.len() != w.applied_before + marks.len() {
+                        crate::common::harness_fail("apply marks and applied updates disagree");
+                    }
+                    for (i, (n_read, calls, data)) in marks.iter().enumerate() {
+                        let wi = StepWindow {
+                            read_begin: prev_end,
+                            read_end: *n_read,
+                            applied_before: w.applied_before + i,
+                            calls_before: prev_calls,
+                            state_before: prev_state,
+                        };
+                        match check_applied_step(&sh, &r_eff, &t, data, &t.applied[w.applied_before + i], &conn, &wi, None, prev_timing) {
+                            Ok((tm, eod)) => {
+                                prev_timing = tm;
+                                prev_end = *n_read;
+                                prev_calls = *calls;
+                                prev_state = Some(eod);
+                                completed += 1;
+                                sh.bump("steps_completed");
+                                sh.bump("steps_completed_inside_client_run");
+                            }
+                            Err(v) => {
+                                verdict = Some(v);
+                                break;
+                            }
+                        }
+                    }
+                }
+                if let Some(v) = verdict {
+                    sh.fail(v);
+                    break 'outer;
+                }
+                steps_left = steps_left.saturating_sub(marks.len() as u32);
+                let (rej_a, rej_p) = { let t = target.0.lock().unwrap(); (t.rejected_applies, t.rejected_pushes) };
+                let target_rejected = rej_a + rej_p > rejected_seen;
+                if target_rejected {
+                    rejected_seen = rej_a + rej_p;
+                    sh.bump("fault_target_rejected_update");
+                }
+                // The state the client names afterwards: while it sits idle
+                // between two steps it is the state of the last End of Data; a
+                // step that did not complete may have dropped the state (Cache
+                // Reset) but cannot have moved it on - unless the target refused
+                // the update (observation iv, outside the statement).
+                let held = prev_state;
+                let state_ok = if idle {
+                    state_after == held
+                } else {
+                    target_rejected || state_after.is_none() || state_after == held
+                };
+                if !state_ok {
+                    sh.fail(Violation::new(
+                        "state-mismatch",
+                        "after-run",
+                        format!(
+                            "router {}: after Client::run() the target holds the data of {:?} but client.state() is {:?}",
+                            r.id, held, state_after
+                        ),
+                    ));
+                    break 'outer;
+                }
+                match &outcome {
+                    Some(Ok(())) => sh.bump("probe_client_run_returned_ok_on_eof"),
+                    Some(Err(_)) => sh.bump("probe_client_run_returned_err"),
+                    None if idle => sh.bump("probe_client_run_stopped_idle"),
+                    None => sh.bump("probe_client_run_stopped_at_deadline"),
+                }
+                // always reconnect afterwards (a dropped step is not resumed)
+                state = if ctx.chance(1, 4) {
+                    target.0.lock().unwrap().seed(DataSet::new(), || false);
+                    None
+                } else if target_rejected {
+                    held
+                } else {
+                    state_after
+                };
+                if outcome.is_some() && marks.is_empty()
+                    && matches!(sh.peer, Peer::LegacyErrorClose { .. }) && initial_version > sh.peer.max_version()
+                {
+                    initial_version -= 1;
+                }
+                drop(client);
+                continue 'outer;
+            }
             // mostly step(); sometimes the public reset() + apply() pair
             // ("forced resync"), which must leave the client in the same
             // relation to the source as any other completed step
